@@ -259,7 +259,7 @@ pub fn check_map(m: &Map, out: &mut Out) {
         let h = &v.hit_objects[i];
         if key(h.start_time) != key(pre[j].start_time) || kind_tag(h) != kind_tag(&pre[j]) {
             out.fail("", &desc, &format!("object at output index {} is not the object expected from a stable sort by start time (file index {})", i, j));
-            break;
+            return;
         }
     }
     if !v.hit_objects.windows(2).all(|w| w[0].start_time <= w[1].start_time) {
@@ -320,7 +320,11 @@ pub fn check_map(m: &Map, out: &mut Out) {
                 for (n, node) in s.node_samples.iter().enumerate() {
                     let t = start + n as f64 * dur / spans + 5.0;
                     let p = cps.sample_points.iter().filter(|p| p.time <= t).last().or(cps.sample_points.first()).cloned().unwrap_or_default();
-                    let want_node: Vec<HitSampleInfo> = ps.node_samples[n].iter().map(|x| expected_apply(&p, x)).collect();
+                    let Some(pre_node) = ps.node_samples.get(n) else {
+                        out.fail("", &desc, &format!("slider {}: node count changed by processing", i));
+                        break;
+                    };
+                    let want_node: Vec<HitSampleInfo> = pre_node.iter().map(|x| expected_apply(&p, x)).collect();
                     if &want_node != node {
                         out.fail("", &desc, &format!("slider {} node {}: samples {:?} but sample point at {} gives {:?}", i, n, node, t, want_node));
                     }
